@@ -524,7 +524,7 @@ package vegeta
 
 // The worker: one result per tick, Done exactly once.
 //@ func (*Attacker).attack
-//@   property C02 C03 C05
+//@   property C02 C03 C04 C05
 //@   requires [non-nil] a != nil && atk != nil && workers != nil && ticks != nil && results != nil && tr != nil
 //@   requires [hit-preconditions] atk.began <= clock(0) && atk.began >= 0 && !held(&atk.seqmu) && a.stopch != nil && (closed(a.stopch) <==> done(&a.stopOnce))
 //@   ghost taken int
@@ -783,6 +783,7 @@ package vegeta
 
 //@ func NewCSVEncoder$1
 //@   property C07 C09
+//@   fields Result Attack Seq Code Timestamp Latency BytesOut BytesIn Error Body Method URL Headers
 //@   returns (err)
 //@   requires [non-nil] r != nil && enc != nil
 //@   modifies *enc
@@ -843,6 +844,7 @@ package vegeta
 // body via Base64Bytes).
 //@ func easyjsonBd1621b8EncodeGithubComTsenartVegetaV12Lib
 //@   property C07
+//@   fields Result Attack Seq Code Timestamp Latency BytesOut BytesIn Error Body Method URL Headers
 //@   requires [non-nil] out != nil
 //@   modifies *out
 //@   ghost nkeys int
